@@ -1,4 +1,4 @@
-CONSTANTS MaxScript = 0 MaxN = 3 Dev = {}
+CONSTANTS MaxScript = 0 MaxPause = 0 MaxN = 3 Dev = {}
 INIT EnumInitOpts
 NEXT Next
 INVARIANTS Complete Thrifty NoRetransmit NoHang
